@@ -68,6 +68,7 @@ type Tunnel struct {
 	ServerClose string // "after-eof", "after-send", "abrupt"
 	WriteSizes  []int
 	SlowStart   time.Duration // the client waits this long before it starts reading
+	NoServer    bool          // nothing listens at the destination: the open must fail (dial refused at the exit)
 	// observations
 	conn       net.Conn
 	OpenErr    error
@@ -203,7 +204,9 @@ func (ts *TunnelSet) Add(t *Tunnel) {
 		t.Dial = fmt.Sprintf("fw%d-%d", t.Exit, t.ID)
 		ex.Cfg.Forward.Endpoints = append(ex.Cfg.Forward.Endpoints, config.ForwardEndpoint{Key: t.Dial, Target: t.Addr})
 	}
-	ts.m.Net.ServeTCP(t.Addr, func(c *simnet.TCPConn) { ts.serve(t, c) })
+	if !t.NoServer {
+		ts.m.Net.ServeTCP(t.Addr, func(c *simnet.TCPConn) { ts.serve(t, c) })
+	}
 	// markers for the plaintext search
 	for d := 0; d < 2; d++ {
 		n := t.Up
@@ -342,7 +345,13 @@ func (ts *TunnelSet) Start(t *Tunnel) {
 		if err != nil {
 			t.OpenErr = err
 			t.clientDone = true
+			if t.NoServer {
+				simrt.Probe("open_refused_at_exit")
+			}
 			return
+		}
+		if t.NoServer {
+			ts.fail(t, "open-succeeded-without-destination", "tunnel open succeeded although nothing listens at the destination", t.Dial)
 		}
 		t.Opened = true
 		t.conn = c
@@ -425,7 +434,7 @@ func (ts *TunnelSet) Wait(limit time.Duration) bool {
 // opened tunnel delivered exactly the bytes that were sent, in both directions.
 func (ts *TunnelSet) CheckComplete() {
 	for _, t := range ts.T {
-		if t.faulted || t.Kind == "udp" {
+		if t.faulted || t.Kind == "udp" || t.NoServer {
 			continue
 		}
 		if !t.Opened {
